@@ -21,7 +21,7 @@ func init() {
 	fw.Register(&fw.Check{
 		ID:    "C19",
 		Level: "fault_enumeration",
-		Rule: "case = (scenario, fault kind); scenarios: count vectors (1,1,1,1,1) and (2,2,2,2,2) in quick, plus (3,3,3,3,3), (3,1,0,2,3), (2,2,0,0,2), two further AMF-choice variations and one LONG run (12,12,12,12,12; two fault kinds only) in thorough; fault kinds: close (instead of message k), abort (the association is ended with the request that message k would answer still UNREAD: the peer sees a reset, not end-of-file), close-after (right after sending message k, for every k < M after which the emulator still has to write) + 16 garbage variants (a PDU whose frame - alternative, procedure code, criticality, matching length - is intact around an undecodable interior; bytes laid out like an SCTP event notification; an undecodable answer that arrives 17 s late - after a UE's 15 / 16 s guard timers; the header of a DOWNLINK NAS TRANSPORT / of another message an AMF may send unsolicited, then noise; the first half of the message under the header of another procedure, one octet, 32 random octets, first half, truncated by one, wrong PDU alternative, length beyond the data, zeros, 2047 / 2048 / 8192 random octets). " +
+		Rule: "case = (scenario, fault kind); scenarios: count vectors (1,1,1,1,1) and (2,2,2,2,2) in quick, plus (3,3,3,3,3), (3,1,0,2,3), (2,2,0,0,2), two further AMF-choice variations and one LONG run (12,12,12,12,12; two fault kinds only) in thorough; fault kinds: close (instead of message k), abort (the association is ended with the request that message k would answer still UNREAD: the peer sees a reset, not end-of-file), close-after (right after sending message k, for every k < M after which the emulator still has to write) + 17 garbage variants (bytes framed as a PAGING message that break off; a PDU whose frame - alternative, procedure code, criticality, matching length - is intact around an undecodable interior; bytes laid out like an SCTP event notification; an undecodable answer that arrives 17 s late - after a UE's 15 / 16 s guard timers; the header of a DOWNLINK NAS TRANSPORT / of another message an AMF may send unsolicited, then noise; the first half of the message under the header of another procedure, one octet, 32 random octets, first half, truncated by one, wrong PDU alternative, length beyond the data, zeros, 2047 / 2048 / 8192 random octets). " +
 			"Each case runs the baseline under strace and then one emulator process per fault index k in [0,R) (exhaustive over k). Verdict per faulted run: exit status must be non-zero, no completion banner, not blocked: " +
 			"'blocked' = after the watchdog (nominal duration of the whole scenario + 20 s) two samples of /proc/<pid>/task/*/syscall three seconds apart both show recvmsg on the N2 descriptor while the AMF is quiescent. " +
 			"One extra case per kind drives EstablishPDU through the procedure driver with the fault on its own reply. distinct = hash(scenario, kind); non-trivial = at least 2 faulted runs",
